@@ -11,7 +11,7 @@ sys.path.insert(0, os.path.join(vlib.VERIF, "corr", "real"))
 import runner  # noqa: E402
 
 PROP_FILE = "Props/C13.v"
-THEOREMS = ["C13_no_leak_after_sweep", "C13_refuted_creation_window", "C13_structure"]
+THEOREMS = ["C13_no_leak_after_sweep", "C13_unregistered_is_gone", "C13_refuted_creation_window", "C13_structure"]
 ASSUME = [
     "the tracker is not killed (the property's own quantifier excludes it); a killed tracker loses its registry",
     "POSIX named semaphores appear as /dev/shm/sem.<name>",
@@ -82,6 +82,50 @@ mine = [s for s in leaked if f"loky-{p.pid}-" in s]
 for s in mine:
     os.unlink(s)          # do not litter the sandbox
 print(json.dumps({"child_rc": p.returncode, "child_pid": p.pid, "leaked": mine}))
+'''
+
+
+FINALIZER = r'''
+import gc, glob, json, os, signal, subprocess, sys, time
+# crash points inside the finalizer of a named semaphore: the child kills itself at the entry / exit of the two steps
+# (sem_unlink, resource_tracker.unregister), whatever their order in the source
+CHILD = """
+import gc, os, signal, sys
+import loky.backend.synchronize as sy
+import loky.backend.resource_tracker as rt
+from loky.backend import get_context
+point, kind = sys.argv[1], sys.argv[2]
+ctx = get_context('loky')
+obj = {'lock': ctx.Lock, 'sem': lambda: ctx.Semaphore(2), 'cond': ctx.Condition, 'event': ctx.Event, 'queue': ctx.Queue}[kind]()
+def die():
+    os.kill(os.getpid(), signal.SIGKILL)
+def wrap(fn, before, after):
+    def w(*a, **k):
+        if point == before: die()
+        r = fn(*a, **k)
+        if point == after: die()
+        return r
+    return w
+sy.sem_unlink = wrap(sy.sem_unlink, 'unlink.entry', 'unlink.exit')
+rt.unregister = wrap(rt.unregister, 'unregister.entry', 'unregister.exit')
+del obj
+gc.collect()
+os._exit(3)     # the crash point was not reached
+"""
+out = []
+for kind in sys.argv[1].split(","):
+    for point in ("unlink.entry", "unlink.exit", "unregister.entry", "unregister.exit"):
+        p = subprocess.Popen([sys.executable, "-c", CHILD, point, kind], cwd="/")
+        p.wait(60)
+        t0 = time.time()
+        mine = lambda: sorted(s for s in glob.glob("/dev/shm/sem.loky-*") if f"loky-{p.pid}-" in s)
+        while time.time() - t0 < 10 and mine():
+            time.sleep(0.05)
+        left = mine()
+        for s in left:
+            os.unlink(s)
+        out.append({"kind": kind, "point": point, "rc": p.returncode, "left": left})
+print(json.dumps(out))
 '''
 
 
@@ -166,6 +210,19 @@ def run(ctx):
                 os.unlink(f)
         except (ValueError, IndexError, OSError):
             pass
+    # (d) death at the entry / exit of either step of the finalizer, for every kind of primitive
+    kinds = "lock,event" if ctx.tier == "quick" else "lock,sem,cond,event,queue"
+    fres = runner.run_script(FINALIZER, vlib.REPO, timeout=300, args=(kinds,), spare_trackers=True)
+    fgot = runner.last_json(fres)
+    if fgot is None:
+        fails.append((("finalizer",), ["finalizer crash-point scenario did not complete: " + fres["stderr"][-300:]], None))
+    else:
+        for rec in fgot:
+            if rec["left"]:
+                fails.append((("finalizer", rec["kind"], rec["point"]),
+                              [f"a {rec['kind']} whose owner died at {rec['point']} of its finalizer leaves {rec['left']} behind for good"], rec))
+            elif rec["rc"] != -9:
+                fails.append((("finalizer", rec["kind"], rec["point"]), [f"crash point {rec['point']} not reached (rc {rec['rc']})"], rec))
     if fails:
         plan, bad, got = fails[0]
         rp = vlib.write_replay(ctx, "real", {"kind": "a named semaphore / tracked resource outlived its tree", "plan": plan, "why": bad,
@@ -177,7 +234,7 @@ def run(ctx):
                                                "searched": f"{len(plans) + len(modes) + 1} real scenarios: no failing input"})
         what = pr["broken"].get("lemma") or pr["broken"].get("kind")
         ctx.violations.append((f"{pr['broken']['kind']} ({what}) no longer checks", rp, True))
-    n = len(plans) + len(modes) + 1
+    n = len(plans) + len(modes) + 1 + (len(fgot) if fgot else 0)
     ctx.coverage = {
         "obligations": pr.get("obligations", 0) or 1, "discharged": pr.get("obligations", 0) if pr["ok"] else 0,
         "checker_cmd": "cd /verif/coq && make Props/C13.vo + Print Assumptions",
@@ -186,8 +243,9 @@ def run(ctx):
         "rule": "real process trees whose members create Lock/Semaphore/Condition/Event and end by collection, normal exit, uncaught "
                 "exception, os._exit, SIGKILL (both orders); one parent with every primitive, two queues and an executor ending by "
                 "release / broken pool / uncaught exception / os._exit; one child killed at the LOKY_VERIF fault point between creation "
-                "and registration; observed: /dev/shm/sem.loky-<pid>-* while alive and after the tracker swept, 'leaked' on stderr",
-        "creation_window": wgot, "traces_validated_against_impl": n, "samples": results[:4],
+                "and registration; children that kill themselves at the entry / exit of sem_unlink and of unregister inside the "
+                "finalizer of each kind of primitive; observed: /dev/shm/sem.loky-<pid>-* while alive and after the tracker swept, 'leaked' on stderr",
+        "creation_window": wgot, "finalizer_crash_points": fgot and len(fgot), "traces_validated_against_impl": n, "samples": results[:4],
     }
     return vlib.finish(ctx, ASSUME)
 
